@@ -343,6 +343,9 @@ def run(ctx):
     engine_check.scenario_run(ctx, "scen_engine.attr_commit_builder", MONITORS, nontrivial, RULE, 16, 300, 14,
                               "attribute_op_then_commit_part", seed_base=850000)
     zoo_pass(ctx)
+    # the grid on a database file an EARLIER run of the server wrote (corpus/legacy_db)
+    import legacy_db_check
+    legacy_db_check.hook(ctx, "c13")
     dom, outside = theorem_domain(ctx, grid)
     ctx.coverage["theorem_domain"] = dom
     ctx.coverage["items_outside_theorem_domain_samples"] = outside
@@ -451,6 +454,9 @@ def search(ctx, broken):
 
 
 def replay(ctx, rep):
+    import legacy_db_check
+    if legacy_db_check.is_mine(rep):
+        return legacy_db_check.replay(ctx, rep)
     if (rep.get("replay") or {}).get("kind") == "zoo":
         rr = zoo_case(tuple(rep["replay"]["args"]))
         for sig, what in rr["fails"]:
